@@ -124,6 +124,7 @@ type shadowCell struct {
 	w     epoch
 	hasW  bool
 	reads []epoch
+	keep  unsafe.Pointer // keeps the accessed memory alive for the duration of the execution
 }
 
 func (x *exec) access(p unsafe.Pointer, write bool, pos string) {
@@ -133,6 +134,11 @@ func (x *exec) access(p unsafe.Pointer, write bool, pos string) {
 	}
 	xx.mu.Lock()
 	xx.accessLocked(t, uintptr(p), write, pos)
+	if c := xx.shadow[uintptr(p)]; c != nil && c.keep == nil {
+		// the cell is keyed by address: the memory must not be freed and handed out again (to another
+		// thread's allocation) while this execution lasts, or two unrelated objects would share a cell
+		c.keep = p
+	}
 	xx.mu.Unlock()
 }
 
